@@ -8,6 +8,7 @@ import Biogo.Spec.Morass
 import Biogo.Proofs.MorassConc
 import Biogo.Proofs.MorassCycle
 import Biogo.Proofs.MorassHistory
+import Biogo.Proofs.MorassReject
 import Biogo.Properties.C12_history
 import Biogo.Properties.C11_checker
 import Biogo.Drive.C13
@@ -60,6 +61,55 @@ example : ∃ s, Reach (sys true 1 false false
     rw [hs] at this; simpa using this
   · have : (runFrom S S.init sched).map (fun s => s.outs.reverse.map (·.res))
         = some [.ok, .ok, .ok, .ok, .ok, .ok, .ok, .ioerr] := by decide
+    rw [hs] at this; simpa using this
+
+/-! ### rejected pushes are no-ops of the history, under every schedule and fault -/
+
+/-- **A rejected Push is a no-op of the history, whatever the interleaving.**  A program whose
+    accepted calls are the well-formed history `h`, with `Push` calls of values of another type
+    inserted anywhere (in particular when the chunk is exactly full, and right before `Finalise`),
+    either mode, any single fault or none, any schedule: the rejected calls spawn no writer and
+    hand over no chunk — every reachable state is, once the rejected calls and their outputs are
+    erased, a reachable state of the program without them (`reach_erase`) — so when the caller
+    has returned from its last call, some call returned an I/O error or the outputs of the
+    accepted calls satisfy `HistorySpec ac h`. -/
+theorem history_rejected_push_noop (c : Nat) (hc : 1 ≤ c) (conc ac acl : Bool) (h : List Cycle)
+    (hwf : wellFormed ac h = true) (ops : List Op) (hops : dropRejects ops = histOps h) (flt : Fault)
+    {s : CState} (hr : Reach (sys conc c ac acl ops flt) s) (hfin : finished s = true) :
+    (∃ o ∈ s.outs, o.res = .ioerr) ∨ HistorySpec ac h (dropRejOuts s.outs.reverse) := by
+  have hr' := reach_erase hr
+  rw [hops] at hr'
+  rcases history_fault_surfaces c hc conc ac acl h hwf flt hr' (finished_erase hfin) with ⟨o, ho, hio⟩ | hspec
+  · left
+    refine ⟨o, ?_, hio⟩
+    have : o ∈ dropRejOuts s.outs := ho
+    exact (List.mem_filter.mp this).1
+  · right
+    have e : (erase s).outs.reverse = dropRejOuts s.outs.reverse := by
+      show (dropRejOuts s.outs).reverse = _
+      simp [dropRejOuts, List.filter_reverse]
+    rw [← e]; exact hspec
+
+/-- non-vacuity (and the shape of the seeded change C12-m3): chunk 2, push 2 1, a rejected Push
+    with the chunk exactly full, Finalise, pulls — concurrent mode; the model spawns no writer for
+    the rejected call and the pulls deliver 1 2 -/
+example : ∃ s, Reach (sys true 2 false false [.push ⟨2, 0⟩, .push ⟨1, 0⟩, .reject, .finalise, .pull, .pull, .pull] none) s
+    ∧ finished s = true ∧ s.writers.length = 0
+    ∧ s.outs.reverse.map (·.res) = [.ok, .ok, .rejected, .ok, .ok, .ok, .eof]
+    ∧ s.outs.reverse.filterMap (·.val) = [⟨1, 0⟩, ⟨2, 0⟩] := by
+  let S := sys true 2 false false [.push ⟨2, 0⟩, .push ⟨1, 0⟩, .reject, .finalise, .pull, .pull, .pull] none
+  let sched := [0, 0, 0, 0, 0, 0, 0, 0, 0, 0, 0, 0, 0, 0, 0]
+  have h : (runFrom S S.init sched).isSome = true := by decide
+  obtain ⟨s, hs⟩ := Option.isSome_iff_exists.mp h
+  refine ⟨s, reach_run S _ s hs, ?_, ?_, ?_, ?_⟩
+  · have : (runFrom S S.init sched).map finished = some true := by decide
+    rw [hs] at this; simpa using this
+  · have : (runFrom S S.init sched).map (·.writers.length) = some 0 := by decide
+    rw [hs] at this; simpa using this
+  · have : (runFrom S S.init sched).map (fun s => s.outs.reverse.map (·.res))
+        = some [.ok, .ok, .rejected, .ok, .ok, .ok, .eof] := by decide
+    rw [hs] at this; simpa using this
+  · have : (runFrom S S.init sched).map (fun s => s.outs.reverse.filterMap (·.val)) = some [⟨1, 0⟩, ⟨2, 0⟩] := by decide
     rw [hs] at this; simpa using this
 
 /-! ### residue of the temporary directory after a whole history -/
